@@ -1894,6 +1894,8 @@ std::optional<std::uint64_t> Node::generate_handshake_work(const PeerId& peer_id
 bool Node::perform_handshake(const PeerId& peer_id,
                              std::uint32_t remote_public_key,
                              std::uint64_t remote_work_nonce) {
+    // Handshakes arrive on the transport accept thread as well as on the control and tick threads.
+    SchedulerLock lock(scheduler_mutex_);
     const auto now = std::chrono::steady_clock::now();
     const auto key = peer_id_to_string(peer_id);
 
@@ -1956,6 +1958,7 @@ int Node::reputation_score(const PeerId& peer_id) const {
 }
 
 std::optional<bool> Node::last_handshake_success(const PeerId& peer_id) const {
+    SchedulerLock lock(scheduler_mutex_);
     const auto it = handshake_state_.find(peer_id_to_string(peer_id));
     if (it == handshake_state_.end()) {
         return std::nullopt;
